@@ -121,6 +121,9 @@ pub enum Op {
     RrdpSessionReset { inst: usize },
     /// The publication server operator removes the CA's publisher.
     RemovePublisher { inst: usize, ca: String },
+    /// The publication server operator adds the CA's publisher (again),
+    /// from the CA's publisher request: same handle, same identity.
+    ReAddPublisher { inst: usize, ca: String },
     /// Restart with another RRDP retention configuration.
     RestartRrdp {
         inst: usize, min_nr: usize, max_nr: usize, min_seconds: u32,
@@ -147,7 +150,8 @@ impl Op {
             | Op::RepoSyncAll { inst } | Op::Snapshot { inst }
             | Op::SnapshotFail { inst, .. }
             | Op::Restart { inst } | Op::RrdpSessionReset { inst }
-            | Op::RemovePublisher { inst, .. } | Op::RestartRrdp { inst, .. }
+            | Op::RemovePublisher { inst, .. } | Op::ReAddPublisher { inst, .. }
+            | Op::RestartRrdp { inst, .. }
             | Op::Partition { inst } => vec![*inst],
             Op::SignerOffline | Op::SignerSession => vec![0],
             Op::Heal { .. } | Op::Advance { .. } | Op::Pump
@@ -188,6 +192,7 @@ impl Op {
             Op::SignerSession => "signer_session",
             Op::RrdpSessionReset { .. } => "rrdp_session_reset",
             Op::RemovePublisher { .. } => "remove_publisher",
+            Op::ReAddPublisher { .. } => "readd_publisher",
             Op::RestartRrdp { .. } => "restart_rrdp",
         }
     }
@@ -465,7 +470,12 @@ pub fn generate(rng: &mut Rng, ctx: &GenCtx) -> Op {
 
     if pick < cfg.w_status {
         let ca = *rng.pick(&user_cas);
-        return Op::RemovePublisher { inst: ca.inst, ca: ca.name.clone() }
+        // Adding a publisher that is still there is refused (a no-op).
+        return if rng.chance(2, 5) {
+            Op::ReAddPublisher { inst: ca.inst, ca: ca.name.clone() }
+        } else {
+            Op::RemovePublisher { inst: ca.inst, ca: ca.name.clone() }
+        }
     }
     pick -= cfg.w_status;
 
